@@ -49,10 +49,10 @@ def bracket(rng, occ, virt):
     return sgn * (Add(*[_e(s) for s in v]) - Add(*[_e(s) for s in o]))
 
 
-def gen_term(rng, fock=False, spin=False):
+def gen_term(rng, fock=False, spin=False, spaces="ov"):
     from adcgen.indices import Index, get_symbols
     names = ["V", "t1", "t2", "Y", "d0", "c"] + (["f"] if fock else [])
-    g = TermGen(rng, spaces="ov", spin=spin, n_tensors=(1, 3) if not spin else (1, 2),
+    g = TermGen(rng, spaces=spaces, spin=spin, n_tensors=(1, 3) if not spin else (1, 2),
                 max_contracted=4 if not spin else 3, max_target=3,
                 names=names, exclude=(), pool_size=5, exponents=0.25 if fock else 0.0)
     rem = g.term()
@@ -114,7 +114,8 @@ def run_case(item):
     from adcgen.misc import Inputerror
     try:
         spin = rng.random() < 0.2 and op not in ("factor_eri", "factor_denom")
-        rem, occ, virt, idx = gen_term(rng, fock=op in ("diag_fock", "block_diag_fock"), spin=spin)
+        rem, occ, virt, idx = gen_term(rng, fock=op in ("diag_fock", "block_diag_fock"), spin=spin,
+                                       spaces="ovg" if op == "block_diag_fock" and rng.random() < 0.5 else "ov")
     except RuntimeError:
         return {"status": "skipped", "item": item}
     if not consistent_bks(rem):
@@ -130,6 +131,10 @@ def run_case(item):
             if den is S.One:
                 return {"status": "skipped", "item": item}
             term = rng.choice([1, Rational(1, 2), -2, Rational(3, 4)]) * num * rem / den
+            if T and rng.random() < 0.15:
+                # a tensor with negative exponent in the remainder (on target indices only)
+                from adcgen.sympy_objects import NonSymmetricTensor
+                term = term / NonSymmetricTensor("c", tuple(rng.sample(T, min(len(T), rng.choice([1, 2])))))
             e = Expr(term, target_idx=T)
             res["in"] = str(e)
             if op == "sym_denom":
